@@ -57,6 +57,16 @@ pub fn acc(name: &str, buf: &[u8], pos: usize) -> Value {
         "f64" => { let r = d.f64(); res(r, &d, vf64) }
         "bytes" => { let r = d.bytes(); res(r, &d, |s| vslice("bytes", buf, s)) }
         "str" => { let r = d.str(); res(r, &d, |s| vslice("str", buf, s.as_bytes())) }
+        "bytes_iter" => {
+            let r: Result<(Vec<u8>, bool), Error> = (|| { let mut cat = Vec::new(); let mut borrowed = true;
+                for c in d.bytes_iter()? { let c = c?; borrowed &= vslice("x", buf, c)["off"] != -1; cat.extend_from_slice(c) } Ok((cat, borrowed)) })();
+            res(r, &d, |(cat, b)| json!({"k":"bytescat","cat":bytes(&cat),"borrowed":b}))
+        }
+        "str_iter" => {
+            let r: Result<(Vec<u8>, bool), Error> = (|| { let mut cat = Vec::new(); let mut borrowed = true;
+                for c in d.str_iter()? { let c = c?; borrowed &= vslice("x", buf, c.as_bytes())["off"] != -1; cat.extend_from_slice(c.as_bytes()) } Ok((cat, borrowed)) })();
+            res(r, &d, |(cat, b)| json!({"k":"strcat","cat":bytes(&cat),"borrowed":b}))
+        }
         "array" => { let r = d.array(); res(r, &d, vlen) }
         "map" => { let r = d.map(); res(r, &d, vlen) }
         "tag" => { let r = d.tag(); res(r, &d, |t| vtag(t.as_u64())) }
